@@ -128,7 +128,7 @@ Theorem stale_invariant :
 Proof. intros k progs s c sl v R Hin. exact (proj1 (reachable_stale k progs s R) c sl v Hin). Qed.
 Print Assumptions stale_invariant.
 
-From Thunder Require Import Reactive.ProofsOut.
+From Thunder Require Import Reactive.ProofsOut Reactive.ProofsClosed Reactive.ProofsShape Reactive.ProofsProgress.
 
 (** The same, about what was actually published: [r_out] is the value the compute function had returned when
     the publish step ran (the harness compares it with the real return value at every publish event). *)
@@ -144,16 +144,21 @@ Proof.
 Qed.
 Print Assumptions published_output_is_current.
 
-(** Progress, the part that is proved: a task can only be blocked on r.mu (the labels RunLock and StopMark are
-    the only ones with a blocking enabling condition besides guards that name existing nodes), and whenever
-    r.mu is held some task stands inside the critical section of Rerunner.run, i.e. holds a frame between
-    Lock and the deferred Unlock.
+(** PROGRESS (no deadlock).  In every reachable state that is not quiescent some task label is enabled.  Compute
+    functions are finite scripts, so "user compute terminates" is built into the model; [progs_ok k progs] says
+    that the programs only name slots that exist.  Proof: closedness (ProofsClosed: node ids in frames name
+    existing nodes, addOut's two nodes differ, handlers are registered on fresh nodes), the shape of stacks
+    (ProofsShape: whatever sits above a frame of Rerunner.run's critical section is a frame of the compute
+    function), and the Mutex invariant: the only blocking labels wait for r.mu, and the task that holds r.mu
+    has an enabled top frame. *)
+Theorem progress :
+  forall k progs s, progs_ok k progs -> reachable (init k progs) s -> ~ quiescent s ->
+  exists tid arg s', step s (LTask tid arg) = Some s'.
+Proof. intros k progs s Pk R Nq. apply (progress_lemma k progs s Pk R). exact Nq. Qed.
+Print Assumptions progress.
 
-    FULL STATEMENT (not proved): forall reachable s, s_tasks s <> [] -> exists l s', step s l = Some s'
-    (given that compute scripts are finite).  What is missing is the stack-shape invariant saying that the
-    frames above such a holder frame are compute-script frames, all of whose labels are enabled, and that
-    node ids in frames always name existing nodes. *)
-Theorem progress_mutex_holder_partial :
+(** whenever r.mu is held some task stands inside the critical section of Rerunner.run *)
+Theorem mutex_holder_exists :
   forall k progs s r, reachable (init k progs) s -> r < length (s_rrs s) ->
   r_mu (getr s r) = true -> exists f, In f (all_frames s) /\ anchor r f = true.
 Proof.
@@ -163,7 +168,7 @@ Proof.
   destruct (anchor r f) eqn:A; [exists f; split; [left; reflexivity | exact A]|].
   destruct (IH H) as [g [G1 G2]]. exists g. split; [right; exact G1 | exact G2].
 Qed.
-Print Assumptions progress_mutex_holder_partial.
+Print Assumptions mutex_holder_exists.
 
 From Thunder Require Import Reactive.Drive.
 
